@@ -1218,3 +1218,47 @@ ENGINES = ["E1-pyvc", "E3-E4-rtc"]
 LEVEL_TEXT = 'Mixed. Proved (E1): the matrix handed to LAPACK by schmidt_rank / schmidt_decomposition is the amplitude matrix (or its transpose) for ALL local dimensions; purity and l1_norm_coherence compute their defining formula over uninterpreted library operations (E1-term). Everything else (closed forms on states with prescribed Schmidt data, invariances, is_product, S(k) norms) is a bounded run-time contract check.'
 EXPLANATION = LEVEL_TEXT
 TECHNIQUE = "VCs from the real AST discharged by z3 (index contract on the amplitude matrix; formula contracts over uninterpreted library operations) + bounded run-time-checked contracts on the real functions"
+
+
+# =============================================================================================
+# frame coverage shared by all properties (E2 obligations for every public function of the anchor files + run-time frame cases)
+# =============================================================================================
+from props import frame_all as _fa  # noqa: E402
+from props.frame_common import frame_generic as _fg, frame_object as _fo  # noqa: E402
+
+CLAUSES.setdefault("frame.generic", _fg)
+CLAUSES.setdefault("frame.object", _fo)
+_cases_before_frames = cases
+_prove_before_frames = globals().get("prove")
+
+
+def cases(tier, seed):  # noqa: F811
+    return _cases_before_frames(tier, seed) + _fa.frame_cases(ID, seed)
+
+
+def prove(tier, seed):  # noqa: F811
+    from vt.pyvc.termproofs import merge
+
+    b = _fa.prove_frames(ID, lambda s: _fa.frame_cases(ID, s))(tier, seed)
+    if _prove_before_frames is None:
+        return b
+    return merge(_prove_before_frames(tier, seed), b)
+
+
+# ---------------------------------------------------------------------------------------------
+# additional S(k)-norm cases (main agent): flat Schmidt spectrum plus a small multiple of the identity -- the regime in which the
+# realignment-based upper bound (Prop. 4.2.11) is the binding one, so a wrong constant there is visible
+_cases_before_sk_extra = cases
+
+
+def cases(tier, seed):  # noqa: F811
+    out = _cases_before_sk_extra(tier, seed)
+    for d in ([3, 3], [3, 4], [4, 3], [4, 4]):
+        m = min(d)
+        for k in range(1, m):
+            for c in (0.05, 0.1, 0.02):
+                q = dict(dims=d, k=k, family="shifted-pure", r=m, profile="equal", c=c, seed=seed, effort=0, dimform="list")
+                ic = "sk_operator_norm/shifted-maxent/%s/k<=optimum-rank" % ("equal-dims" if d[0] == d[1] else "unequal-dims")
+                out.append(dict(clause="sknorm.upper_ge_known", params=q, input_class=ic, nontrivial=True))
+                out.append(dict(clause="sknorm.lower_le_known", params=q, input_class=ic, nontrivial=True))
+    return out
